@@ -247,20 +247,22 @@ def convertCells (box : Box Rat) (un : LUnit) (cells : List Val) : Res (List Rat
   | .factor f => pure (cells.map fun v => v.toRat * f)
   | .scaled => scaledCells box (cells.map Val.toRat)
 
+/-- some cells are boolean tokens and some are not. -/
+def mixedBool (cells : List (List Val)) : Bool := cells.any (·.any Val.isBool) && !cells.all (·.all Val.isBool)
+
 /-- the value array of one property: `df[names].values.reshape((natoms,) + shape)` then conversion.  The shape
     of the loaded property is the shape of the `prop_info` entry, whatever it is (`()` and `(1,)` and `(1,1)` are
     three different shapes over one column).  `scaled` needs a last dimension of 3.  The dtype stays integer
     (boolean) exactly when every cell is an integer (boolean) token and nothing was converted; a property whose
     cells mix boolean with numeric tokens would be a numpy object array: not modelled (refused). -/
-def propOfColumn (box : Box Rat) (c : PCol) (cells : List (List Val)) : Res LProp := do
+def propOfColumn (box : Box Rat) (c : PCol) (cells : List (List Val)) : Res LProp :=
   if shapeProd c.shape ≠ c.names.length then throw "value"
-  if c.unit = .scaled ∧ c.shape.getLast? ≠ some 3 then throw "value"
-  let anyBool := cells.any (·.any Val.isBool)
-  let allBool := cells.all (·.all Val.isBool)
-  if anyBool ∧ ¬ allBool then throw "value"
-  let vals ← cells.mapM (convertCells box c.unit)
-  pure { name := c.prop, shape := c.shape, isInt := c.unit = .none && cells.all (·.all Val.isInt), vals := vals,
-         isBool := c.unit = .none && allBool && anyBool }
+  else if c.unit = .scaled ∧ c.shape.getLast? ≠ some 3 then throw "value"
+  else if mixedBool cells then throw "value"
+  else do
+    let vals ← cells.mapM (convertCells box c.unit)
+    pure { name := c.prop, shape := c.shape, isInt := c.unit = .none && cells.all (·.all Val.isInt), vals := vals,
+           isBool := c.unit = .none && cells.all (·.all Val.isBool) && cells.any (·.any Val.isBool) }
 
 /-- first-dimension rule of `Atoms.view[name] = value`: `natoms` rows, or one row that is broadcast. -/
 def fitRows (n : Nat) (vals : List (List Rat)) : Res (List (List Rat)) :=
@@ -272,13 +274,11 @@ def fitRows (n : Nat) (vals : List (List Rat)) : Res (List (List Rat)) :=
 /-- `system.atoms.view[name] = value`. `atype` must be integers `≥ 1` without shape, `pos` 3-vectors. -/
 def assignProp (s : Loaded) (p : LProp) : Res Loaded := do
   let vals ← fitRows s.natoms p.vals
-  if p.name = "atype" then
-    if !(p.isInt ∧ p.shape = [] ∧ vals.all fun v => decide (1 ≤ v.headD 0)) then throw "value"
-  if p.name = "pos" then
-    if p.shape ≠ [3] then throw "value"
-  let p' : LProp := { p with vals := vals, isInt := if p.name = "pos" then false else p.isInt,
-                             isBool := if p.name = "pos" then false else p.isBool }
-  pure { s with props := setProp p' s.props }
+  if p.name = "atype" ∧ !(p.isInt ∧ p.shape = [] ∧ vals.all fun v => decide (1 ≤ v.headD 0)) then throw "value"
+  else if p.name = "pos" ∧ p.shape ≠ [3] then throw "value"
+  else
+    pure { s with props := setProp { p with vals := vals, isInt := if p.name = "pos" then false else p.isInt,
+                                            isBool := if p.name = "pos" then false else p.isBool } s.props }
 
 def assignCols (box : Box Rat) : List PCol → List (List (List Val)) → Loaded → Res Loaded
   | c :: cs, cells :: rest, s => do
